@@ -72,7 +72,11 @@ package protocol
 //@ iface Version.DocumentTransformer
 //@   ensures result != nil
 //@ iface DocumentValidator.*
-//@ iface DocumentTransformer.*
+// what every caller of a document transformer must supply (the DID transformer's own preconditions, C19): a boolean
+// published flag and a string id
+//@ iface DocumentTransformer.TransformDocument
+//@   requires info != nil && "published" in info ==> isType(info["published"], "bool")
+//@   requires info != nil && "id" in info ==> isType(info["id"], "string")
 //@ spec parseOK2(p OperationParser, ns string, buf bytes) bool
 //@ iface OperationParser.Parse
 //@   results op, err
